@@ -119,6 +119,9 @@ static void* stack_get(std::size_t bytes) {
 static void stack_put(void* p, std::size_t bytes) {
     // an abandoned fiber leaves poisoned redzones behind: clear them before reuse
     if (__asan_unpoison_memory_region) __asan_unpoison_memory_region(p, bytes);
+    // Under ThreadSanitizer a recycled stack would carry the previous fiber's access history and every reuse
+    // would look like a race; unmapping makes the runtime forget the range (its mmap/munmap interceptors reset it).
+    if (__tsan_create_fiber) { munmap(p, bytes); return; }
     if (g_stack_pool.size() < 64) g_stack_pool.emplace_back(p, bytes);
     else munmap(p, bytes);
 }
